@@ -485,7 +485,7 @@ func init() {
 		Rules: []func(*Ctx){func(c *Ctx) { ruleC02a(c, "C02.a") }, func(c *Ctx) { ruleC02b(c, "C02.b") }, func(c *Ctx) { ruleC02c(c, "C02.c") }, func(c *Ctx) {
 			c.describe("C02.k", "dom: a WAL entry (one offset) becomes exactly one row store insert — (*table).doInsert calls rowStore.insert once, outside any loop, so that the offset and all values of the point are applied in one lock region (see C01.a) and no flush can persist the offset with part of the point")
 			ruleOneInsertPerPoint(c, "C02.k")
-		}, func(c *Ctx) { ruleC02l(c, "C02.l") }, func(c *Ctx) { ruleC02m(c, "C02.m") }, func(c *Ctx) {
+		}, func(c *Ctx) { ruleC02l(c, "C02.l") }, func(c *Ctx) { ruleC02m(c, "C02.m") }, func(c *Ctx) { ruleC02n(c, "C02.n") }, func(c *Ctx) {
 			c.describe("C02.d", "flow: header offsets belong to the flushed rows (see C03.d)")
 			ruleC03d(c, "C02.d")
 		}, func(c *Ctx) { ruleC02e(c, "C02.e") }, func(c *Ctx) { ruleC02f(c, "C02.f") }, func(c *Ctx) { ruleLockRegions(c, "C02.g") }, func(c *Ctx) {
@@ -566,4 +566,39 @@ func ruleC02m(c *Ctx, rule string) {
 		}
 	}
 	c.floor(rule, "WAL truncation/compression calls", n, 1)
+}
+
+// ruleC02n: no backfill limit means no limit.
+func ruleC02n(c *Ctx, rule string) {
+	c.describe(rule, "dom: (*table).backfillTo returns the zero time when TableOpts.Backfill is 0 (not configured) — CreateTable limits the persisted resume offsets by LimitAge(backfillTo()); reading the unset option as 'backfill nothing' replaces every persisted offset by 'now', so acknowledged inserts that were only in the memstore at a kill are never replayed")
+	bf := c.need(rule, "(*z.table).backfillTo")
+	if bf == nil {
+		return
+	}
+	ok := false
+	for _, ci := range findIfs(bf, func(v ssa.Value) bool {
+		b, isB := v.(*ssa.BinOp)
+		if !isB || (b.Op != token.EQL && b.Op != token.NEQ && b.Op != token.LEQ && b.Op != token.GTR) {
+			return false
+		}
+		k, isK := constInt(b.Y)
+		return isK && k == 0 && isFieldLoad(b.X, "z.TableOpts.Backfill")
+	}) {
+		b := ci.v.(*ssa.BinOp)
+		zeroSide := b.Op == token.EQL || b.Op == token.LEQ
+		s := ci.succFor(zeroSide)
+		onlyZero := true
+		for bb := range reach([]*ssa.BasicBlock{s}, nil, nil) {
+			if len(bb.Instrs) == 0 {
+				continue
+			}
+			if r, isR := bb.Instrs[len(bb.Instrs)-1].(*ssa.Return); isR && !isZeroTime(r.Results[0]) {
+				onlyZero = false
+			}
+		}
+		if onlyZero && !reach([]*ssa.BasicBlock{s}, nil, nil)[ci.succFor(!zeroSide)] {
+			ok = true
+		}
+	}
+	c.check(rule, "backfillTo: an unset Backfill imposes no limit", bf.Pos(), ok, "Backfill == 0 returns time.Time{}", "backfillTo does not return the zero time for Backfill == 0: the default (no backfill limit) is treated as 'backfill zero long', every restart resumes the WAL at 'now' and unflushed acknowledged inserts are lost")
 }
